@@ -32,8 +32,9 @@ from fractions import Fraction
 from qstatic.alg import Poly, P
 from qstatic.dom_sym import SymArr, Namespace, sym_quat, sym_real, arrays_same, first_diff, mk
 from qstatic.domain import Opaque
+from qstatic.src import AnalysisError
 from .common import new_interp, run_guarded, short
-from .common2 import indices, explore_paths, is_symarr, atoms_of, sumsq_real
+from .common2 import indices, explore_paths, is_symarr, sumsq_real
 
 LEVEL = "other"
 EXPLANATION = ("Abstract interpretation (AST only) of tensor_unfold / tensor_fold (all shapes of a bounded box, all "
@@ -64,7 +65,7 @@ def ref_unfold(T, mode):
 
 
 def check_unfold(ctx, it, f_un, f_fo):
-    top = 4 if ctx.thorough else 3
+    top = 5 if ctx.thorough else 3
     box = list(itertools.product(range(1, top + 1), repeat=3))
     ctx.notes["C18.tensor_box"] = f"all (I,J,K) with 1 <= I,J,K <= {top} ({len(box)} shapes) x modes 0,1,2"
     for shp in box:
@@ -290,7 +291,7 @@ def check_metrics(ctx, F, deferred):
                         break
             if bad is None and n_inf == 0:
                 bad = ("no path returns inf",)
-            ctx.ob("C18.D3.psnr", f"psnr {shp} ({drn}): inf iff mean((x-x_ref)^2) == 0 ({'all paths'})", bad is None,
+            ctx.ob("C18.D3.psnr", f"psnr {shp} ({drn}): inf iff mean((x-x_ref)^2) == 0 on every path", bad is None,
                    f"psnr is not zero-distance consistent: {short(bad, 200)}", where=f_ps.where,
                    construct="psnr: inf is not equivalent to mse == 0", loc=f_ps.loc(), detail=short(bad))
         paths = explore_paths(mk_it, lambda it: it.run(f_ps, [x, x]))
@@ -418,13 +419,23 @@ def check_noise(ctx, F):
                 if not (P(loc).same(0) and tuple(size) == tuple(shp)):
                     bad = ("noise is not zero-mean / not of Q's shape", (loc, size))
                     break
-                if not (isinstance(scale, Poly) and scale.same(want_sigma)):
-                    bad = ("sigma is not sqrt(sum(Q^2) / (snr * Q.size))", scale)
+                if not is_symarr(out, "real", shp) or out is Q:
+                    bad = ("result is not a fresh real array of Q's shape", out)
                     break
-                import numpy as np
-                if not (is_symarr(out, "real", shp) and arrays_same(out, SymArr(np.asarray(Q, dtype=object) + np.asarray(noise, dtype=object), "real"))
-                        and out is not Q):
-                    bad = ("result is not a fresh array Q + noise", out)
+                # effective noise: out - Q = c * N entrywise with one common factor c; effective sigma = c * scale
+                cs = set()
+                for idx in indices(shp):
+                    c = (P(out[idx]) - P(Q[idx])) * P(noise[idx]).inverse()
+                    if any(isinstance(a, tuple) and a and a[0] == "noise" for a in c.atoms()):
+                        cs.add(None)
+                    else:
+                        cs.add(c.key())
+                if len(cs) != 1 or None in cs:
+                    bad = ("result is not Q + (factor) * drawn noise", out)
+                    break
+                eff = Poly(dict(next(iter(cs)))) * P(scale)
+                if not (eff * eff).same(want_sigma * want_sigma):      # N and -N have the same law
+                    bad = ("sigma is not sqrt(sum(Q^2) / (snr * Q.size))", eff)
                     break
             if bad is None and (n_noise == 0 or n_zero == 0):
                 bad = ("expected one noisy path and one zero-signal path", (n_noise, n_zero))
@@ -459,5 +470,7 @@ def run(ctx):
     # the finding list is still empty on a clean tree)
     for d in deferred:
         d()
-    ctx.require_instances("C18.D2.roundtrip", 3 * len(ctx.notes["C18.image_shapes"]))
-    ctx.require_instances("C18.D3.zero-distance", 6)
+    # these two counts do not depend on the verdicts; checked directly because the finding list is non-empty here
+    for rule, minimum in (("C18.D2.roundtrip", 3 * len(ctx.notes["C18.image_shapes"])), ("C18.D3.zero-distance", 6)):
+        if ctx.instances.get(rule, 0) < minimum:
+            raise AnalysisError(f"rule {rule} matched {ctx.instances.get(rule, 0)} instance(s), fewer than {minimum}")
